@@ -22,7 +22,15 @@ def topo(name: str, is_async: bool) -> GProg:
     def c(*deps, res="t"):
         return GNode(edges=tuple(Edge(d, "pos") for d in deps) + (P,), res=res)
 
+    def sn(*deps):
+        return GNode(edges=tuple(Edge(d, "pos") for d in deps), setup=True, res="t", retnone=True)
+
+    def d(*deps, res="t"):  # a non-setup node that does NOT take the DAG argument (computable from setup results alone)
+        return GNode(edges=tuple(Edge(d_, "pos") for d_ in deps), res=res)
+
     nodes = {
+        "none_chain": (sn(), s(0), c(1), c(0)),
+        "deep": (s(), d(0), d(1, res="m"), c(2), s()),
         "one": (s(), c(0)),
         "two": (s(), s(), c(0), c(1, res="m")),
         "chain": (s(), s(0), c(1)),
@@ -31,7 +39,7 @@ def topo(name: str, is_async: bool) -> GProg:
     return GProg(nodes=nodes, mc=2, is_async=is_async, params=(("x", NODEFAULT),))
 
 
-TOPOS = ["one", "two", "chain", "chain_plus"]
+TOPOS = ["one", "two", "chain", "chain_plus", "none_chain", "deep"]
 
 
 def menu(p: GProg):
@@ -39,9 +47,11 @@ def menu(p: GProg):
     consumers = [i for i, nd in enumerate(p.nodes) if not nd.setup]
     setups = [i for i, nd in enumerate(p.nodes) if nd.setup]
     t1, t2 = consumers[0], setups[-1]
+    t3 = consumers[-1]
     m = [("call", None, "a"), ("call", None, "b"), ("executor", None, "a"),
          ("executor", {"T": [t1]}, "a"), ("executor", {"T": [t2]}, "a"), ("executor", {"X": [consumers[-1]]}, "a"),
-         ("setup", None, None), ("setup", {"T": [t1]}, None), ("setup", {"T": [t2]}, None), ("deepcopy", None, None)]
+         ("setup", None, None), ("setup", {"T": [t1]}, None), ("setup", {"T": [t2]}, None), ("deepcopy", None, None),
+         ("mk_executor", None, None), ("run_executor", None, "c"), ("setup", {"T": [t3]}, None), ("setup", {"T": []}, None)]
     return m
 
 
@@ -62,6 +72,7 @@ def run_hist(acc, c):
     acc.cases += 1
     inst = Instance(p)
     original = None
+    stored = None
     names = []
     for step, k in enumerate(c["hist"]):
         kind, sel, arg = m[k]
@@ -70,6 +81,16 @@ def run_hist(acc, c):
             if original is None:
                 original = inst
             inst = inst.clone()
+            stored = None
+            continue
+        if kind == "mk_executor":
+            stored = inst.d.executor()  # constructed now, run later (setup() may be called in between)
+            continue
+        if kind == "run_executor":
+            if stored is None:
+                continue
+            run_op(acc, c, names, inst, "executor_obj", None, (arg,), executor_obj=stored)
+            stored = None
             continue
         run_op(acc, c, names, inst, kind, sel, (arg,) if arg else ())
     # probes: the instance (and the original it was copied from) still behave
@@ -103,7 +124,11 @@ def build_clause(acc, c):
                                 base = prog_of(dict(n=n, es=es4, setup=list(st), res="t" * n, mc=1))
                                 nodes = list(base.nodes)
                                 for i in takes:
-                                    nodes[i] = GNode(**{**nodes[i].__dict__, "edges": nodes[i].edges + (Edge(-1, "pos"),)})
+                                    has_flag = any(e.kind == "flag" for e in nodes[i].edges)
+                                    form = [("pos", ()), ("kw", ()), ("flag", ()), ("pos", (0,))][(i + off + argk) % 4]
+                                    if form[0] == "flag" and has_flag:
+                                        form = ("kw", ())
+                                    nodes[i] = GNode(**{**nodes[i].__dict__, "edges": nodes[i].edges + (Edge(-1, form[0], form[1]),)})
                                 for default in (1, NODEFAULT):  # a defaulted and a required DAG argument
                                     p = GProg(nodes=tuple(nodes), params=(("x", default),))
                                     bad = any((i in st) and (any(d not in st for d in p.deps(i)) or i in takes) for i in range(n))
